@@ -1897,6 +1897,12 @@ fn generate_autocoerce(
 	llvm: &mut Generator,
 ) -> Result<LLVMValueRef, anyhow::Error>
 {
+	// Redundant parentheses do not change what is being coerced.
+	let mut expression = expression;
+	while let Expression::Parenthesized { inner } = expression
+	{
+		expression = inner.as_ref();
+	}
 	match coerced_type
 	{
 		ValueType::Slice { element_type } => match expression
